@@ -5,7 +5,7 @@ from lib.runner import Outcome
 from gen import records as R
 
 ID = "C05"
-LEAN_TARGETS = ["CLModel.Props.C05", "CLModel.Proofs.C05Props", "CLModel.Proofs.C05Steps"]
+LEAN_TARGETS = ["CLModel.Props.C05", "CLModel.Proofs.C05Props", "CLModel.Proofs.C05Steps", "CLModel.Proofs.C05Sess"]
 M = "CLModel.Props.C05"
 THEOREMS = [
     (M, "C05.parse_never_stuck", "for every regex format and every text the parser model terminates with a finite entry list (no hang)"),
@@ -55,6 +55,16 @@ THEOREMS = [
     (M, "C05.compare_ftl_parser_raises", "…and compare reports it as an error detail on ref_file (upstream fix d91dd73) or on l10n, without merging or counting: never raises"),
     (M, "C05.remove_never_raises", "ContentComparer.remove never raises (any file, any filters)"),
     (M, "C05.add_never_raises", "ContentComparer.add never raises for every text of a regex format, any file, any filters: the except branch around readFile/parse is never needed"),
+    (M, "C05.session_never_raises_partial", "SESSIONS — one ContentComparer comparing a sequence of file pairs (compareProjects): the state threaded through the jobs is the observers and the junk counters (Junk.junkid, XMLJunk.junkid) and nothing else, the checker is a per-file value built inside each call; every compare call of every session of covered jobs returns, from any fresh observers / filters and any counter values"),
+    (M, "C05.ufffd_warned_in_every_job", "for EVERY job of EVERY session, wherever it stands and whatever the other files contain (same format or not, same keys or not): each shared key whose localized text has U+FFFD has its encoding warning in toJSON() after the session, in the leaf whose path is the path of THAT file"),
+    (M, "C05.session_report_wellformed_partial", "every item of toJSON()['details'] after a session is a well-formed error / warning / missing / obsolete entry"),
+    (M, "C05.job_checker_key", "the checker built for a file is a function of its class, the file's locale and (needs_reference) the parsed reference only: files that agree on these get equal checkers — nothing else a checker object could carry from one file to the next exists in the model"),
+    (M, "C05.lint_session_never_raises_partial", "one L10nLinter.lint over any list of covered files (with / without references, any counter values) returns one result list per file"),
+    (M, "C05.exSession_ok", "non-vacuity: a session of three jobs over two formats (clean ini, ini with U+FFFD, properties with U+FFFD; with and without merge) satisfies the hypotheses (with exSession_prefixFree), so the session theorems apply to it"),
+    (M, "C05.exSession_prefixFree", "…and its three file paths are prefix-free"),
+    ("CLModel.Proofs.C05Sess", "C05Sess.session_spec", "the session lemma: the observers after a session are the observers before it run on the concatenation of the jobs' histories; every event belongs to the file of a job and is well formed; the history has the encoding warning, for its own file, of every job"),
+    ("CLModel.Proofs.C05Sess", "C05Sess.fresh_run", "the tree invariant of the observers survives every history, so the one-comparison lemmas apply to job k started from what the jobs before it left"),
+    ("CLModel.Proofs.C05Sess", "C05Sess.report_has_detail", "toJSON() over a history of several prefix-free files shows every entity / message notification in the leaf of its own file"),
     ("CLModel.Proofs.C05Ext", "C05Ext.runFluent_ok", "FluentChecker.check (model of C08) answers for every pair of FluentEntities with positions they resolve, starting with the base check's results"),
     ("CLModel.Proofs.C05Ext", "C05Ext.runAndroid_ok", "AndroidChecker.check (model of C09) answers for every pair of AndroidEntities, starting with the base check's results"),
     ("CLModel.Proofs.C05Steps", "C05Steps.mS_sim", "the step-counting regex engine of the guard explores the same search as the engine all parser models run on: within its budget it returns the same verdict"),
@@ -79,6 +89,11 @@ PARTIAL = [
     "DTDChecker with extra_tests=['android-dtd'] is outside the pipeline (compare passes extra_tests=None; C07 covers processAndroidContent)",
     "Android: compare_android_never_raises_partial is stated WITHOUT merge staging: with it two skipped AndroidEntities make merge raise TypeError "
     "(known finding F5-android-no-spans-raise, witness android_merge_raises)",
+    "sessions (one comparer / one linter over a sequence of files): the session theorems carry the per-job hypotheses of the one-comparison "
+    "theorems (C05Sess.JobOK: scalar dtd texts, FtlBodyOK, no string id beginning with _junk_, no merge staging for Android) and, for the "
+    "statements about toJSON(), prefix-free file paths (C10's hypothesis, witness C10.prefix_case_witness); a job whose external Fluent parser "
+    "raises is outside the session model (covered by the one-comparison theorems and streams); the linter session is tied by correspondence and "
+    "'never raises' only (the property promises the encoding warning for comparisons)",
     "termination: proved for the regex parsers' outer loops (parse_never_stuck); the running time of a single regex match is guarded, not proved: "
     "long-run inputs under a deadline plus the step-counting engine (C05Steps.mS_sim: same search as the model engine) with the bound "
     "'doubling a run at most quadruples the steps' over all generated regexes",
@@ -100,7 +115,8 @@ LEVEL_TEXT = ("Lean 4 theorems about ONE composed Except-valued model of compare
               "regex of the code base under a step-count guard")
 LEVEL_NOTE = ("trusted: Lean kernel, regex model (validated differentially), the decode model vs CPython, the external XML/Fluent parsers as "
               "inputs; termination of single regex matches is guarded by sampling, not proved")
-TECHNIQUE = ("Lean 4 proof over one composed Except-valued pipeline model (externals as parameters) + differential correspondence of whole reports "
+TECHNIQUE = ("Lean 4 proof over one composed Except-valued pipeline model (externals as parameters) and its SESSION form (state = observers + junk "
+             "counters, the checker a per-file value) + differential correspondence of whole reports, single and per session, "
              "+ watchdog-supervised execution oracle on arbitrary and long-run byte pairs + step-counting regex guard")
 
 FORMATS = ["properties", "dtd", "ini", "inc", "ftl", "po", "android"]
@@ -802,12 +818,20 @@ def regex_guard(out, ctx):
     res = dict(zip(idx, model))
     by_name = {m["name"]: m for m in meta}
     suspects = {}
+    unknown = set()
     for (name, o, c, mode, k), r in res.items():
         if k != 1:
             continue
         out.evaluations += 1
         r2 = res.get((name, o, c, mode, 2))
         over = r == "over" or r2 == "over"
+        if not over and not (str(r).isdigit() and str(r2).isdigit()):
+            # the driver does not know this regex (its tables were generated from another source tree than gen_patterns.json):
+            # the correspondence is broken, not the check
+            if ("rx-unknown", name) not in unknown:
+                unknown.add(("rx-unknown", name))
+                out.disagreements.append({"op": "c05.rxsteps", "regex": name, "mode": mode, "model": str(r)[:80], "impl": "a regex of the source tree"})
+            continue
         if not over:
             a, b = int(r), int(r2)
             over = b > RX_RATIO * max(a, 50)
@@ -832,13 +856,263 @@ def regex_guard(out, ctx):
                                       "model": "steps %s -> %s when the run doubles" % (r, r2), "impl": "re answers in %s s" % t.get("seconds")})
 
 
+# ---------------------------------------------------------------- sessions: one comparer / one linter over a sequence of files
+SESS_KEYS = ["alpha", "beta2", "title", "brand_name", "key4", "gamma", "open_cmd", "zz9"]
+SESS_VALS = ["wert", "zwei Worte", "drei kurze Worte", "x", "Seite öffnen", "v", "ein etwas längerer Text mit Worten"]
+SESS_BAD = [b"\xef\xbf\xbd", b"\xef\xbf\xbd", b"\xff", b"\xc3", b"\xe2\x82", b"\xf0\x9f", b"\x80", b"\xed\xa0\x80"]
+MARK = ""                 # placeholder inside a printed file: replaced, after encoding, by bytes that decode to U+FFFD
+MARK_B = MARK.encode("utf-8")
+
+
+SESS_DTD_VALS = ["siehe &brandShortName;", "von &vendorShortName;", "&brandFullName; und &brandShortName;", "mehr &unknownThing;",
+                 "&vendorShortName; &brandFullName;", "&otherThing; hier", "a &amp; b"]
+
+
+def sess_file(fmt, keys, rng, bad, pad, vals=None):
+    """one file of a session from the record printer: the strings `keys` (shared with the other files of the session), `pad`
+    extra strings / comment lines in front (so that the same key sits at different offsets in different files); `bad` > 0:
+    that many strings get a replacement character (or invalid UTF-8) at the start, inside or at the end of the value, or in
+    the attached comment"""
+    recs = []
+    for n in range(pad):
+        recs.append(("pad%d" % n, rng.choice(vals or SESS_VALS), rng.choice([None, "Kommentar %d" % n])))
+    hit = set(rng.sample(range(len(keys)), min(len(keys), bad)))
+    for n, k in enumerate(keys):
+        v = rng.choice(vals or SESS_VALS)
+        c = rng.choice([None, None, "Hinweis"])
+        if n in hit:
+            r = rng.random()
+            if r < 0.3:
+                v = MARK + v
+            elif r < 0.6:
+                q = rng.randrange(1, len(v) + 1)
+                v = v[:q] + MARK + v[q:]
+            elif r < 0.85:
+                v = v + MARK
+            else:
+                c = "Hin" + MARK + "weis"
+            if rng.random() < 0.2:
+                v = v + " " + MARK
+        recs.append((k, v, c))
+    text = R.print_file(fmt, recs)
+    data = text.encode("utf-8")
+    while MARK_B in data:
+        data = data.replace(MARK_B, rng.choice(SESS_BAD), 1)
+    return data
+
+
+def gen_sessions(ctx):
+    """histories for ONE `ContentComparer` / ONE `L10nLinter`: 2-5 file pairs of the same and of different formats, the same
+    keys in several files, replacement characters / invalid bytes in file k but not in the files before it (and the other
+    way round), at different offsets; with and without merge staging"""
+    rng = ctx.rng("c05-sessions")
+    sessions = []
+    for i in range(ctx.n(320, 4000)):
+        n = rng.randrange(2, 6)
+        r = rng.random()
+        if r < 0.45:
+            kind = "same-format"
+            fmts = [rng.choice(FORMATS)] * n
+        elif r < 0.6:
+            kind = "two-formats"
+            a, b = rng.sample(FORMATS, 2)
+            fmts = [rng.choice([a, b]) for _ in range(n)]
+            fmts[0], fmts[-1] = a, a
+        else:
+            kind = "mixed"
+            fmts = [rng.choice(FORMATS) for _ in range(n)]
+        r = rng.random()
+        if r < 0.4:               # clean files first, then the damaged one(s)
+            first_bad = rng.randrange(1, n)
+            bads = [0] * first_bad + [rng.randrange(1, 4) for _ in range(n - first_bad)]
+            when = "later-bad"
+        elif r < 0.6:             # the first file is damaged, the later ones are clean
+            bads = [rng.randrange(1, 4)] + [0 if rng.random() < 0.8 else 1 for _ in range(n - 1)]
+            when = "first-bad"
+        else:
+            bads = [rng.choice([0, 0, 1, 2, 3]) for _ in range(n)]
+            when = "any"
+        keys = rng.sample(SESS_KEYS, rng.randrange(2, 6))
+        jobs = []
+        for fmt, bad in zip(fmts, bads):
+            if rng.random() < 0.75:
+                ks = [k for k in keys if rng.random() < 0.9] or keys[:1]
+                # dtd: every file refers to its own few entities (what DTDChecker learns from ONE reference must not leak into the next file)
+                rvals = lvals = None
+                if fmt == "dtd" and rng.random() < 0.7:
+                    rvals = rng.sample(SESS_DTD_VALS, 2) + ["wert"]
+                    lvals = rng.sample(SESS_DTD_VALS, 3) + ["wert"]
+                ref = sess_file(fmt, ks + (["only_ref"] if rng.random() < 0.2 else []), rng, 0, rng.randrange(0, 3), rvals)
+                lks = [k for k in ks if rng.random() < 0.9] or ks[:1]
+                l10n = sess_file(fmt, lks + (["only_l10n"] if rng.random() < 0.2 else []), rng, bad, rng.randrange(0, 4), lvals)
+                if rng.random() < 0.12:
+                    g = rng.choice(R.GARBAGE[fmt]).encode("utf-8")
+                    q = l10n.rfind(b"\n", 0, rng.randrange(len(l10n) + 1)) + 1
+                    if fmt != "android" or q > 60:
+                        l10n = l10n[:q] + g + l10n[q:]
+            else:                 # the record generators of C02 with a localization derived from the reference
+                recs, kinds = R.gen_reference(fmt, rng, n=rng.randrange(1, 5))
+                ref = R.print_file(fmt, recs).encode("utf-8")
+                l10n = R.derive_l10n(fmt, recs, kinds, rng)[0].encode("utf-8")
+                if bad:
+                    words = [w.encode("utf-8") for w in R.WORDS] + [b"L10N", b"und", b"von", b"Text", b"fett", b"siehe", b"einfach"]
+                    hitw = [w for w in words if w in l10n]
+                    for w in rng.sample(hitw, min(len(hitw), bad)):
+                        l10n = l10n.replace(w, w[:1] + rng.choice(SESS_BAD) + w[1:], 1 if rng.random() < 0.5 else 5)
+                elif rng.random() < 0.2:
+                    l10n = byte_mutate(l10n, rng, 1).replace(b"\xef\xbf\xbd", b"?")
+            jobs.append([fmt, ref.decode("latin-1"), l10n.decode("latin-1"), rng.random() < 0.5])
+        sessions.append({"jobs": jobs, "lint_refs": [rng.random() < 0.6 for _ in jobs], "kind": kind, "when": when})
+    return sessions
+
+
+def session_oracle(sess, r0):
+    """what C05 promises for EVERY file of a session, whatever was compared or linted before it: no raise, well-formed
+    entries, the encoding warning for every shared string with U+FFFD (checked in the details of THAT file)"""
+    out = []
+    if r0.get("exc") == "Hang":
+        return [("a session of comparisons / lint runs does not terminate", None)]
+    if r0.get("exc"):
+        return [("session adapter raised %s: %s %s" % (r0["exc"], r0.get("msg"), r0.get("where")), None)]
+    r = r0.get("r", r0)
+    for i, j in enumerate(r["jobs"]):
+        case = {"fmt": j["fmt"], "ref": sess["jobs"][i][1], "l10n": sess["jobs"][i][2], "merge": j["merge"]}
+        where = "file %d of %d (%s)" % (i + 1, len(r["jobs"]), j["rel"])
+        if j["compare"] != "ok":
+            info = j.get("compare_exc", {})
+            out.append(("%s: compare raised %s: %s at %s" % (where, info.get("exc"), info.get("msg"), info.get("where")),
+                        finding_of(case, "compare", info)))
+        for s in j.get("shape", [])[:2]:
+            out.append(("%s: malformed report entry: %s" % (where, s), None))
+        for k in j.get("ufffd_missing", [])[:3]:
+            fresh_has = ("fresh" in j and "warning=" in j["fresh"].get("leaf", ""))
+            out.append(("%s: shared localized string %s contains U+FFFD but got no encoding warning from a comparer that had compared %d "
+                        "file(s) before%s" % (where, k, i, " (a fresh comparer warns)" if fresh_has else ""), None))
+        if j.get("oracle_exc"):
+            out.append(("%s: the oracle's own parse raised %s" % (where, j["oracle_exc"]), finding_of(case, "adapter", j["oracle_exc"])))
+    if r.get("report_exc"):
+        out.append(("toJSON() after the session raised %s" % (r["report_exc"],), None))
+    if r.get("lint") != "ok":
+        info = r.get("lint_exc", {})
+        out.append(("L10nLinter.lint over the %d files raised %s: %s at %s" % (len(r["jobs"]), info.get("exc"), info.get("msg"), info.get("where")),
+                    finding_of({"fmt": "ftl" if any(j["fmt"] == "ftl" for j in r["jobs"]) else "", "ref": "", "l10n": ""}, "lint", info)))
+    for s in r.get("lint_shape", [])[:2]:
+        out.append(("malformed lint result: %s" % s, None))
+    return out
+
+
+def sess_tokens(j):
+    """one job in the wire form of `c05.session` / `c05.lintsession`"""
+    m = 1 if j["merge"] else 0
+    if j["fmt"] == "ftl":
+        if j["ref_body"].startswith("!") or j["l10n_body"].startswith("!"):
+            return None
+        return "F %s %d %s %s %s %s" % (C.enc(j["rel"]), m, C.enc(j["ref_text"]), C.enc(j["l10n_text"]), j["ref_body"], j["l10n_body"])
+    if j["fmt"] == "android":
+        return "A %s %d %s %s %s" % (C.enc(j["rel"]), m, C.enc(j["l10n_text"]), j["ref_items"], j["l10n_items"])
+    return "T %s %d %s %s %s" % (C.enc(j["rel"]), m, j["fmt"], C.enc(j["ref_text"]), C.enc(j["l10n_text"]))
+
+
+def session_stream(out, ctx):
+    sessions = gen_sessions(ctx)
+    res = pool.pmap("impl.pipeline", "impl_session", [[s["jobs"], s["lint_refs"]] for s in sessions], timeout=20.0, batch=4)
+    lines, idx = [], []
+    for n, (s, r0) in enumerate(zip(sessions, res)):
+        out.evaluations += 1
+        out.count("session.%s.%s" % (s["kind"], s["when"]))
+        bad = session_oracle(s, r0)
+        for msg, fid in bad[:3]:
+            out.violations.append({"what": "session: " + msg, "input": {"session": s["jobs"], "lint_refs": s["lint_refs"]}, "finding": fid})
+            out.count("violation." + (fid or "NEW"))
+        if r0.get("exc"):
+            continue
+        r = r0.get("r", r0)
+        # differential: the same step by a fresh comparer / a fresh linter
+        total = {}
+        for i, j in enumerate(r["jobs"]):
+            out.evaluations += 2
+            fr = j.get("fresh", {})
+            for k in ("compare", "leaf", "merge_out"):
+                if fr.get(k) != j.get(k) and not bad:
+                    out.disagreements.append({"op": "c05.session-vs-fresh." + k, "file": j["rel"], "position": i, "fmt": j["fmt"], "merge": j["merge"],
+                                              "formats": [x["fmt"] for x in r["jobs"]], "impl": str(j.get(k))[:500], "model": "fresh comparer: " + str(fr.get(k))[:500],
+                                              "l10n": j["l10n_text"][:300]})
+                    out.count("session.disagree.fresh.%s.%s" % (j["fmt"], k))
+            for loc, d in (fr.get("summary") or {}).items():
+                t = total.setdefault(loc, {})
+                for k, v in d.items():
+                    t[k] = t.get(k, 0) + v
+            if j.get("lint") != j.get("lint_fresh") and not bad:
+                out.disagreements.append({"op": "c05.lintsession-vs-fresh", "file": j["rel"], "position": i, "fmt": j["fmt"],
+                                          "formats": [x["fmt"] for x in r["jobs"]], "impl": str(j.get("lint"))[:500], "model": "fresh linter: " + str(j.get("lint_fresh"))[:500],
+                                          "l10n": j["l10n_text"][:300]})
+                out.count("session.disagree.fresh.%s.lint" % j["fmt"])
+            if "warning=" in j.get("leaf", "") and i > 0:
+                out.nontrivial.add(("session", j["fmt"], i, j["leaf"]))
+            out.count("session.file.%s" % j["fmt"])
+        if not bad and all(j["compare"] == "ok" for j in r["jobs"]) and "summary" in r and r["summary"] != total:
+            out.disagreements.append({"op": "c05.session-vs-fresh.summary", "formats": [x["fmt"] for x in r["jobs"]],
+                                      "impl": str(r["summary"])[:500], "model": "sum of the fresh runs: " + str(total)[:500]})
+        # correspondence with the session form of the composed model
+        toks = [sess_tokens(j) if not j.get("tokens_exc") else None for j in r["jobs"]]
+        if all(t is not None for t in toks):
+            ext = (" " + r["ext"]) if r.get("ext") else ""
+            lines.append("c05.session %d %s%s" % (len(toks), " ".join(toks), ext))
+            idx.append((n, "report"))
+            lines.append("c05.lintsession %d %s%s" % (len(toks), " ".join("%d %s" % (1 if lr else 0, t) for lr, t in zip(s["lint_refs"], toks)), ext))
+            idx.append((n, "lint"))
+    model = (drive(out, lines, "c05.session") or []) if ctx.model_ok else []
+    for (n, what), mo in zip(idx, model):
+        s, r = sessions[n], res[n].get("r", res[n])
+        out.evaluations += 1
+        if what == "report":
+            im = r["report"]
+        else:
+            im = r["lint"] if r["lint"] != "ok" else "ok " + " & ".join(j["lint"][3:] for j in r["jobs"])
+        if any(j["fmt"] == "ftl" for j in r["jobs"]):
+            im, mo = canon_set_order_session(im), canon_set_order_session(mo)
+        if im != mo:
+            out.disagreements.append({"op": "c05.session." + what, "formats": [j["fmt"] for j in r["jobs"]], "merge": [j["merge"] for j in r["jobs"]],
+                                      "l10n": [j["l10n_text"][:200] for j in r["jobs"]], "impl": im[:900], "model": mo[:900]})
+            out.count("pipeline.disagree.session." + what)
+        else:
+            out.nontrivial.add(("session-model", what, im))
+        out.count("session.model." + what)
+
+
+def canon_set_order_session(s):
+    """`canon_set_order` for a text that holds several files: every run of `|`-adjacent items carrying "Missing attribute: "
+    (FluentChecker iterates over a Python set there) is sorted"""
+    if MISSING_ATTR not in s:
+        return s
+    import re
+    # the first item of a leaf follows its path: `<path>:<item>|<item>`
+    s = re.sub(r":((?:error|warning|missingEntity|obsoleteEntity|missingFile|obsoleteFile)=)", ":\x00\\1", s)
+    parts = re.split("([|;&\\[\\] \x00])", s)       # items at even positions, separators at odd ones
+    i = 0
+    while i < len(parts):
+        if MISSING_ATTR not in parts[i]:
+            i += 2
+            continue
+        j = i
+        while j + 2 < len(parts) and parts[j + 1] == "|" and MISSING_ATTR in parts[j + 2]:
+            j += 2
+        if j > i:
+            parts[i:j + 1:2] = sorted(parts[i:j + 1:2])
+        i = j + 2
+    return "".join(parts).replace("\x00", "")
+
+
 def run(ctx):
     out = Outcome()
     out.rule = ("per file type: reference and localization from the record generators, then byte-level mutations (delete/insert/duplicate/"
                 "splice, invalid UTF-8 sequences, NULs, unbalanced quotes and tags), truncation, arbitrary bytes on one or both sides; directed "
                 "families (junk-key clash, PO repr, properties / dtd checks, junk copied with its reference, long runs of one token class in "
-                "an unterminated lexical state); half of the cases with merge staging; non-trivial = the comparison produced at least one "
-                "detail or lint result; distinct = distinct (format, localized bytes)")
+                "an unterminated lexical state); half of the cases with merge staging; SESSIONS: one ContentComparer and one L10nLinter over "
+                "2-5 file pairs of the same and of different formats sharing their keys, U+FFFD / invalid bytes in file k but not before (and "
+                "the other way round) at different offsets, dtd files referring to different entities — judged per file by construction and "
+                "against a fresh comparer / linter per file; non-trivial = the comparison produced at least one detail or lint result; "
+                "distinct = distinct (format, localized bytes)")
     cases = gen_cases(ctx)
     res = pool.pmap("impl.robust", "impl_robust", [[c["fmt"], c["ref"], c["l10n"], c["merge"]] for c in cases],
                     timeout=10.0, batch=8)
@@ -867,6 +1141,7 @@ def run(ctx):
         fres = pool.pmap("impl.pipeline", fn, [[c["ref"], c["l10n"], c["merge"]] for c in fc], timeout=10.0, batch=8)
         diff_stream(out, ctx, fc, fres, mk, "c05")
     files_stream(out, ctx, cases)
+    session_stream(out, ctx)
     odd_files(out, ctx)
     decode_stream(out, ctx)
     regex_guard(out, ctx)
@@ -915,6 +1190,10 @@ def replay(payload):
             t = pool.pmap("impl.pipeline", "impl_rx_time", [[c["pattern"], c["flags"], c["text"], c["mode"]]], timeout=6.0)[0]
             t = t.get("r", t)
             res.append({"input": c, "oracle": ["does not terminate in reasonable time"] if (t.get("exc") == "Hang" or t.get("seconds", 0) > 2.0) else []})
+            continue
+        if "session" in c:
+            r0 = pool.pmap("impl.pipeline", "impl_session", [[c["session"], c["lint_refs"]]], timeout=60.0)[0]
+            res.append({"input": c, "oracle": [m for m, _ in session_oracle({"jobs": c["session"], "lint_refs": c["lint_refs"]}, r0)]})
             continue
         if "fmt" not in c:
             continue
